@@ -665,6 +665,77 @@ def r12(ctx, R):
         raise AnalysisError('C19.R12 positive control not detected')
 
 
+HOOK_RESET = {'pre_run': 'every run', 'pre_step': 'every step', 'pre_setup': 'once'}
+# hook instance state that is read by a callback but not re-initialised in pre_run / pre_step, with the reason
+B8 = {
+    ('Hooks', '__stats'): 'the statistics dictionary itself: rebound by reset_stats, which the controller calls at the start of every run (C19.R1 / R6)',
+    ('LogGlobalErrorPostRun', 'num_restarts'): 'assigned in post_step of every step, read in post_run, which follows the last post_step of the same run',
+    ('LogGlobalErrorPostRun', 't_last_solution'): 'as num_restarts',
+    ('LogToFile', 't_next_log'): 'decides only WHICH steps are appended to the output file (never a solution or a statistics record); not reset between runs - observation O4 in DESIGN 11.3',
+    ('LogToPickleFileAfterXS', 't_next_log'): 'decides only which steps are pickled; as LogToFile.t_next_log',
+    ('Timings', '__t*'): 'wall-clock time stamps (the property excludes timings); each post_X stamps __t1_X itself before it reads it',
+    ('PlottingHook', 'plot_counter'): 'numbers the image files only',
+    ('PlotPostStep', 'skip_counter'): 'decides which steps are plotted only',
+}
+
+
+@rule('C19', 'C19.R13', 'hooks live as long as the controller: instance state of a hook that one callback writes and another reads is assigned afresh in pre_run / pre_step, or assigned in the paired pre_* callback of the same event, or is a tabled entry with the reason it cannot change a solution or a statistics record of a later run (B8)', floor=20)
+def r13(ctx, R):
+    repo = ctx.repo
+    base = repo.cls('pySDC/core/hooks.py', 'Hooks')
+    cbs = [n for n in base.methods if n.startswith(('pre_', 'post_'))]
+    used = set()
+    done = set()
+    for ci in repo.subclasses(base):
+        if not repo.is_library(ci):
+            continue
+        run = _cc_reach(repo, ci, cbs)
+        rst = _cc_reach(repo, ci, HOOK_RESET)
+        writes, reads = {}, set()
+        for m, (owner, fn) in run.items():
+            reads |= _self_reads(fn)
+            for k, how in _self_state(fn).items():
+                writes.setdefault(k, []).append((owner, fn, how))
+        fresh = {}
+        for m, (owner, fn) in rst.items():
+            for k, how in _self_state(fn).items():
+                if 'fresh' in how:
+                    fresh.setdefault(k, f'{owner.name}.{fn.name}')
+            # slot-wise re-initialisation: self.k[slot] = <value that does not read self.k>
+            for st in ast.walk(fn):
+                if isinstance(st, ast.Assign) and len(st.targets) == 1 and isinstance(st.targets[0], ast.Subscript):
+                    kk = [k for k in _self_state(ast.Module(body=[st], type_ignores=[]))]
+                    for k in kk:
+                        if not any(isinstance(x, ast.Attribute) and ast.unparse(x) == f'self.{k}' for x in ast.walk(st.value)):
+                            fresh.setdefault(k, f'{owner.name}.{fn.name} (per slot)')
+        for k, ws in sorted(writes.items()):
+            owner, fn, how = ws[0]
+            if (owner.name, k) in done:
+                continue
+            if not any(r == k or r.startswith(k + '.') or k.startswith(r + '.') for r in reads):
+                continue
+            done.add((owner.name, k))
+            w = f'{owner.module.relpath}:{owner.name}.{fn.name}'
+            R.fn(w)
+            c = f'{owner.name} :: self.{k} (written by {", ".join(sorted({f.name for _, f, _ in ws}))}) is fresh in every run'
+            # paired event: every writer is a pre_X callback with a fresh assignment and the readers are post_X
+            paired = all(f.name.startswith('pre_') and 'fresh' in h for _, f, h in ws if f.name.startswith('pre_')) and any(f.name.startswith('pre_') for _, f, _ in ws) and all(f.name.startswith(('pre_', 'post_')) for _, f, _ in ws)
+            paired = paired and all('fresh' in h for _, f, h in ws)
+            tab = next(((cn, k2) for (cn, k2) in B8 if (k2 == k or k2.endswith('*') and k.startswith(k2[:-1])) and any(isinstance(b, ClassInfo) and b.name == cn for b in ci.mro)), None)
+            if k in fresh:
+                R.ok(c, w, found=f'fresh value assigned in {fresh[k]}')
+            elif paired:
+                R.ok(c, w, found='assigned afresh by the pre_* callback of the event whose post_* callback reads it')
+            elif tab:
+                used.add(tab)
+                R.exc(c, w, B8[tab])
+            else:
+                R.bad(c, w, 'a fresh assignment in pre_run / pre_step (or a B8 entry with the reason)', f'written in {owner.name}.{fn.name}; read by another callback; never re-initialised')
+    missing = set(B8) - used
+    if missing:
+        raise AnalysisError(f'C19.R13: tabled hook state not found any more: {sorted(missing)}')
+
+
 def multistep_reset(ctx, R):
     repo = ctx.repo
     # the one tabled history is reset when a new integration starts
